@@ -99,7 +99,7 @@ struct SeqRun {
         int v = VT == 2 ? 0 : next_value++;
         int push_idx = -1;
         // odd values are pushed from a variable of the caller (an lvalue): the queue takes a copy, the variable stays intact
-        if constexpr (VT == 3) { q->push((std::size_t)(2 + v % 3), v); goto pushed; }
+        if constexpr (VT == 3) { q->push(2 + v % 3, v); goto pushed; }      // (two ints: vector<int>(n, v))
         if constexpr (VT != 2 && VT != 3) if (v & 1) {
             typename QT<VT>::T x = QT<VT>::mk(v);
             if constexpr (BOUNDED) { push_idx = (int)pushes.size(); pushes.emplace_back(new PushF(q->push(x))); } else q->push(x);
